@@ -14,6 +14,7 @@ enum { MAXITEMS = 8, OUTCAP = 16384 };
 
 struct Plain14 { int64_t a; };
 static var Plain14;
+static var Key4, Key12;      /* plain key types whose sizes are not whole numbers of words */
 
 struct item {
   int kind, show_kind;
@@ -207,11 +208,37 @@ static void make_item(vh_rng* r, struct item* it, int kind) {
           break;
         }
         case SH_TABLE1: {
-          var c = new(Table, Int, Int);
-          int64_t k = vh_range(r, -99, 99), v = vh_range(r, -99, 99);
-          set(c, $I(k), $I(v));
+          /* a Table or a Tree of up to three entries: keys are Ints or plain structs of 4 or 12 bytes (shown by the
+             default: type name and address of the key inside the map), values Ints, Floats or Strings; each entry is
+             its key's and its value's own show text, in the map's iteration order */
+          int tree = (int)vh_below(r, 2), kk = (int)vh_below(r, 3), vk = (int)vh_below(r, 3);
+          var kt = kk == 0 ? Int : kk == 1 ? Key4 : Key12;
+          var vt = vk == 0 ? Int : vk == 1 ? Float : String;
+          var c = new_with(tree ? Tree : Table, tuple(kt, vt));
+          int n = 1 + (int)vh_below(r, 3);
+          char vtext[3][120]; int32_t kid[3];
+          for (int i = 0; i < n; i++) {
+            kid[i] = (int32_t)(i * 4 + (int)vh_below(r, 4)) - 5;
+            _Alignas(16) char kb[sizeof(struct Header) + 16]; memset(kb, 0, sizeof kb);
+            var ko = kk == 0 ? (var)$I(kid[i]) : header_init(kb, kt, AllocStack);
+            if (kk != 0) { memcpy(ko, &kid[i], 4); }
+            if (vk == 0) { int64_t v = vh_chance(r, 50) ? vh_range(r, -99, 99) : rand_i64(r); set(c, ko, $I(v)); snprintf(vtext[i], sizeof vtext[i], "%" PRId64, v); }
+            else if (vk == 1) { double v = rand_dbl(r); if (fabs(v) > 1e15 || v != v) { v = -0.75; } set(c, ko, $F(v)); snprintf(vtext[i], sizeof vtext[i], "%f", v); }
+            else { char b[12]; rand_bytes(r, b, 8); set(c, ko, $S(b)); ref_show_string(b, vtext[i], sizeof vtext[i]); }
+          }
+          size_t o = 0; char inner[900]; inner[0] = 0; int seen = 0;
+          foreach (k in c) {
+            int32_t id; if (kk == 0) { id = (int32_t)c_int(k); } else { memcpy(&id, k, 4); }
+            int at = -1; for (int i = 0; i < n; i++) { if (kid[i] == id) { at = i; } }
+            char kt_text[80];
+            if (kk == 0) { snprintf(kt_text, sizeof kt_text, "%d", (int)id); } else { snprintf(kt_text, sizeof kt_text, "<'%s' At 0x%p>", kk == 1 ? "Key4" : "Key12", k); }
+            o += (size_t)snprintf(inner + o, sizeof inner - o, "%s%s:%s", seen ? ", " : "", kt_text, at >= 0 ? vtext[at] : "?");
+            seen++;
+          }
           it->arg = c;
-          snprintf(ind, sizeof ind, "<'Table' At 0x%p {%" PRId64 ":%" PRId64 "}>", c, k, v);
+          snprintf(ind, sizeof ind, "<'%s' At 0x%p {%s}>", tree ? "Tree" : "Table", c, inner);
+          if (kk != 0) { vh_count(tree ? "shown_trees_keyed_by_plain_structs" : "shown_tables_keyed_by_plain_structs"); }
+          if (vk != 0) { vh_count("shown_maps_of_floats_or_strings"); }
           break;
         }
         case SH_RANGE: {
@@ -487,5 +514,7 @@ static void fixed(void) {
 
 int main(int argc, char** argv) {
   Plain14 = new_root(Type, $S("Plain14"), $I(sizeof(struct Plain14)));
+  Key4 = new_root(Type, $S("Key4"), $I(4));
+  Key12 = new_root(Type, $S("Key12"), $I(12));
   return vh_run(argc, argv, "format", fixed, case_random);
 }
